@@ -31,7 +31,7 @@ def run_sequence(formats, fobjs, reqs, via_command=False, throwaway=False):
         form = "string" if k % 2 == 0 else "argv"
         if throwaway:
             evs.append(L.event(formats[fi - 1], L.build_format(formats[fi - 1], bool(k % 2)), toks, lenient, parser=shared, form=form, keep=False))
-            gc.collect()
+            gc.collect(0)   # (youngest generation only: a full collection of the harness heap per request is far too slow)
         else:
             evs.append(L.event(formats[fi - 1], fobjs[fi - 1], toks, lenient, parser=shared, form=form))
     return evs
@@ -98,7 +98,7 @@ def _run(ctx):
         {"cnames": [], "args": [A("x", True), A("host", True), A("z", False)], "opts": [O("aa", "a", "opt", {"t": "I", "v": ["1"]}), O("bb", "", "multi", {"t": "N"})]},
     ]
     sfobjs = [L.build_format(f, True) for f in sformats]
-    alpha = ["", "-", "--", "--aa", "--aa=x", "--aa=7", "--zz", "-a", "-ax", "-ab", "-b", "--bb", "null", "x", "7", "srv", "s", "-a7", "--bb=1", "--", "true"]
+    alpha = ["", "-", "--", "--aa", "--aa=x", "--aa=7", "--zz", "-a", "-ax", "-ab", "-b", "--bb", "null", "x", "7", "srv", "s", "-a7", "--bb=1", "--", "true", "x\r", "yy\r"]
     n = 400 if quick else 8000
     for k in range(n):
         reqs = [(ctx.rng.randrange(len(sformats)) + 1, bool(ctx.rng.getrandbits(1)), [ctx.rng.choice(alpha) for _ in range(ctx.rng.randint(0, 5))])
